@@ -28,6 +28,9 @@ CHECKS = {
  "C08": ("Relational runtime check on design_matrices: for every driver-made design six shadow executions of the real code on transformed frames (row permutation with/without index reset, five kinds of index relabelling, column reorder, unused columns added incl. all-NaN/object/duplicated ones, unused columns removed) must give identical response/common/group matrices (row-permuted under permutation), labels, term order, slices, levels, and identical evaluate_new_data results on a fixed probe frame (fitted parameters seen through the boundary).",
          "rtol 1e-9 on values (reductions over permuted data reassociate), everything else exact; generated callables are deterministic and row-wise.",
          "relational runtime monitor: metamorphic shadow executions of the real code compared at the API boundary"),
+ "C09": ("Relational runtime check on design_matrices(f, d, na_action): the set of used columns is computed from the formula text by the reference grammar; 'drop' must equal a shadow run on the complete rows (used columns only), 'error' must raise ValueError iff a row is incomplete in the used columns and otherwise equal 'drop', 'pass' must keep every row with NaN in exactly the columns of the terms that mention the missing numeric variable and the values of a filled-in shadow design elsewhere, any other policy must be refused. Random designs x 7 missingness patterns x policies.",
+         "'pass' is judged only inside the statement's scope (plain variables / pointwise calls, missing numeric values); other 'pass' cases are executed and counted. Reference executions use the same library on other frames (relational oracle).",
+         "relational runtime monitor: shadow executions on row-filtered / filled frames, used-variable set from the reference grammar"),
 }
 NOT_APPLICABLE = {}
 PENDING = [f"C{i:02d}" for i in range(1, 18) if f"C{i:02d}" not in CHECKS]
